@@ -77,7 +77,7 @@ class NatSpec(object):
             return a
         if kind == "f":
             return np.array([float(_num(v)) for v in vals], dtype=float)
-        if kind == "i":
+        if kind in ("i", "I"):
             return np.array([int(_num(v)) for v in vals], dtype=int)
         if kind == "b":
             return np.array([bool(v) for v in vals], dtype=bool)
@@ -85,7 +85,7 @@ class NatSpec(object):
 
     def arraynd(self, name, kind, shape):
         d = self._get(name)
-        dt = {"f": float, "i": int, "b": bool, "O": object}[kind]
+        dt = {"f": float, "i": int, "I": int, "b": bool, "O": object}[kind]
         if not d["shape"]:
             return np.array(_num(d["values"]), dtype=dt)
         vals = [_num(v) for v in d["values"]]
@@ -139,6 +139,19 @@ class NatSpec(object):
     def mod(self, a, m):
         return int(a) % m
 
+    def div(self, a, m):
+        return int(a) // m
+
+    def forall_nd(self, shape, body):
+        import itertools
+        return all(body(*ix) for ix in itertools.product(*[range(int(s)) for s in shape]))
+
+    def mask_positions(self, mask):
+        return np.nonzero(np.asarray(mask))[0]
+
+    def calls(self, contract_name):
+        return []
+
     # arrays
     def at(self, arr, *idx):
         v = np.asarray(arr)[tuple(int(i) for i in idx)]
@@ -155,6 +168,15 @@ class NatSpec(object):
 
     def kind(self, arr):
         return np.asarray(arr).dtype.kind
+
+    def snapshot(self, arr):
+        return np.array(arr, copy=True)
+
+    def concrete_array(self, data):
+        return np.asarray(data)
+
+    def is_dimarray(self, x):
+        return isinstance(x, self.da.DimArray)
 
     def is_none(self, x):
         return x is None
